@@ -38,6 +38,7 @@ def validate (ext : Ext) (g : Genesis) : Bool :=
   && noDup (g.attesters.map Key.attester)
   && noDup (g.limits.map fun l => Key.limit l.1)
   && g.burnPaused.isSome && g.sendPaused.isSome
+  && g.pairs.all (fun p => p.2.1.length = BurnTokenLen)
   && noDup (g.pairs.map fun p => Key.tokenPair ext p.1 p.2.1)
   && noDup (g.used.map fun u => Key.usedNonce u.1 u.2)
   && noDup (g.messengers.map fun m => Key.messenger m.1)
